@@ -48,7 +48,7 @@ def handle : List String → String
       let wire := match PmtWire.encode 70016 ⟨hdr, mb.numTx, mb.hashes, flags⟩ with
         | .ok b => listToHex (BV.Sha256.hash2List b)
         | .error _ => "err"
-      s!"idx={natsTok mb.matchedIdx} tx={mb.numTx} flags={listToHex flags} hashes={",".intercalate (mb.hashes.map listToHex)} root={listToHex root} x={if x then "1" else "0"} wire={wire}"
+      s!"idx={natsTok mb.matchedIdx} tx={mb.numTx} flags={listToHex flags} hashes={",".intercalate (mb.hashes.map listToHex)} root={listToHex root} x={if x then "1" else "0"} inp=1 wire={wire}"
     | _, _ => "bad-op"
   | ["pmtw", pver, d] =>
     match pver.toNat?, hexToList? d with
